@@ -281,13 +281,26 @@ class Body:
             self._cd = cd
         return self._cd
 
-    def transitive_control_deps(self, b):
+    def transitive_control_deps(self, b, forward_only=True):
+        """branch edges (a, s) the block is transitively control dependent on.  With
+        forward_only, loop-carried dependences (edges from which the block is only reachable by
+        passing the branch again, i.e. decisions of an earlier iteration) are left out."""
         seen = set()
         work = [b]
         out = set()
+        if not hasattr(self, "_fwd_cache"):
+            self._fwd_cache = {}
         while work:
             x = work.pop()
             for (a, s) in self.control_deps().get(x, ()):
+                if forward_only and a != x:
+                    k = (a, s)
+                    if k not in self._fwd_cache:
+                        self._fwd_cache[k] = self.reach_from(s, avoid={a})
+                    if x not in self._fwd_cache[k] or b not in self._fwd_cache[k]:
+                        continue
+                elif forward_only and a == x:
+                    continue
                 if (a, s) not in out:
                     out.add((a, s))
                     if a not in seen:
